@@ -45,6 +45,10 @@ RR_SCRIPTS = {
                       [('rm_file', '/F03.;1', None), ('rm_file', '/F04.;1', None), ('rm_file', '/F08.;1', None)] +
                       [('file', '/G1.;1', 'g1-' + 'y' * 170, None, 2), ('file', '/G2.;1', 'g2-' + 'y' * 240, None, 2), ('symlink', '/G3.;1', 'g3', SYM_MANY),
                        ('rm_file', '/F00.;1', None), ('dir', '/H', 'h' * 230, None)]),
+    # symbolic links whose entries end exactly at a component boundary (and near it), so that an SL entry with the CONTINUE flag ends
+    # with a COMPLETE component
+    'rr-symlink-boundaries': (dict(rock_ridge='1.09'), [('file', '/FOO.;1', 'foo', None, 4), ('symlink', '/SYM.;1', 'sym', 'a' * 128 + '/' + 'b' * 120 + '/ccc')] +
+                              [('symlink', '/S%03d.;1' % k, 's%03d' % k, 'a' * k + '/' + 'b' * 120 + '/ccc') for k in range(120, 137)]),
     'deep-rr-112': (dict(rock_ridge='1.12'), [('dir', p, p.rsplit('/', 1)[1].lower() + '-' + 'l' * 40 * (i % 3), None) for i, p in enumerate(DEEP)] +
                     [('dir', DEEP[-1] + '/D9', 'd9', None), ('file', DEEP[-1] + '/D9/X.;1', 'x' * 200, None, 3), ('file', DEEP[-1] + '/Y.;1', 'y', None, 4),
                      ('dir', '/D1/D2/D3/D4/D5/D6/D7/E8', 'e8', None), ('file', '/D1/D2/D3/D4/D5/D6/D7/E8/Z.;1', 'z', None, 5)]),
@@ -756,3 +760,79 @@ class ReopenedUDF(Base):
 
     def observe(self, c, a, out):
         return {'kind': out.kind, 'problems': getattr(a, 'problems', None)}
+
+
+@contract
+class ReopenedForeignEmpty(Base):
+    """C04/C02 on an image as OTHER mastering tools write it: the directory record of an empty file carries the sector number of
+    the next file (genisoimage/mkisofs do that; ECMA-119 gives the field no meaning for a zero-length file).  Opening such an image
+    and mastering it again must keep every file on its own sectors with its own bytes: an empty file is not a link to the file
+    whose sector number it happens to carry."""
+    target = S.PC + '.open_fp'
+    script = 'empty-files'
+    crosscheck = False
+    label = property(lambda self: 'pycdlib.PyCdlib.open_fp<%s, empty files carrying the next file\'s sector>' % self.script)
+
+    def setup(self, c):
+        S.pin_environment(c)
+        a = c.a
+        built, a.contents = build(c, self.script)
+        img = list(V.items_of(S.written(c, built)))
+        im, res = R.read_iso(img)
+        # patch: every empty file record points at the first sector of the next non-empty file of the image
+        recs = []
+        for d, parent, path in res['root'].dirs_in_order:
+            for ch in d.children:
+                if not ch.isdir:
+                    recs.append(ch)
+        nonempty = sorted(ch.extent for ch in recs if ch.length)
+        a.patched = 0
+        for ch in recs:
+            if ch.length == 0 and nonempty:
+                tgt = nonempty[0]
+                le = list(tgt.to_bytes(4, 'little'))
+                img[ch.rec_off + 2:ch.rec_off + 6] = le
+                img[ch.rec_off + 6:ch.rec_off + 10] = le[::-1]
+                a.patched += 1
+        a.img = V.mk_bytes(img)
+        a.re = c.new(S.PC)
+        a.fp = c.file(a.img)
+        return Call([a.fp], self_obj=a.re)
+
+    def post(self, c, a, out):
+        kw, script = SCRIPTS_ALL[self.script]
+        iso_m, jol_m, rr_m, hidden_m, sym_m, content_m = model_of(script)
+        cl = {'some-record-was-patched': a.patched > 0}
+        cl['library-shows-the-expected-entries-and-bytes'] = library_view(c, a.re, {p: v for p, v in iso_m.items() if v[0] != 'symlink'}, content_m, a.contents, jol_m)
+        k = {'iso_path': '/NEWFILE.;1'}
+        extra = c.bytes('extra_content', 10)
+        good, _ = S.try_call(c, lambda: S.call(c, a.re, 'add_fp', S.data_file(c, extra), 10, **k))
+        cl['an-edit-is-accepted'] = good
+        ok, img2 = S.try_call(c, lambda: S.written(c, a.re))
+        cl['remastering-succeeds'] = ok
+        if not ok:
+            return cl
+        try:
+            im, res = R.read_iso(list(V.items_of(img2)))
+            tree = R.logical_tree(im, res['root'])
+        except (R.Bad, KeyError):
+            cl['independent-reader-can-decode-the-remastered-image'] = False
+            return cl
+        keep, own = [], {}
+        for p, v in iso_m.items():
+            t = tree.get(p.encode())
+            if v[0] != 'file':
+                continue
+            if t is None or t[0] != 'file':
+                keep.append(False)
+                continue
+            keep.append(t[2] == content_m[v[1]] and Eq(V.mk_bytes(R.file_bytes(im, t[1])), a.contents[v[1]]))
+            if content_m[v[1]]:
+                own.setdefault(t[1][0][0], set()).add(v[1])
+        cl['every-file-keeps-its-own-bytes-and-length'] = And(*keep) if keep else True
+        cl['distinct-contents-on-distinct-sectors'] = all(len(s) == 1 for s in own.values())
+        cl['remastered-image-is-structurally-valid'] = not im.problems
+        return cl
+
+    def observe(self, c, a, out):
+        return {'kind': out.kind, 'exc': out.exc}
